@@ -18,5 +18,6 @@ CONSTANTS
   RearmPerRead = FALSE
   NoCloseOnError = FALSE
   RearmAfterConnect = FALSE
+  UdpStrays = "none"
 PROPERTY Termination
 CHECK_DEADLOCK FALSE
